@@ -38,6 +38,9 @@ type DCfg struct {
 	JitterFactor    float32
 	MaxDuration     int64
 	Order           int // order in which the independent builder option groups are applied (0..23)
+	// harness only (virtual time): how long the policy's failure listener and the delay function take; the model reads
+	// the scheduling instant, which is after both
+	LsnSleep, DfSleep int64
 }
 
 func (c DCfg) Gallina() string {
@@ -79,6 +82,7 @@ func (c DCfg) Build(tbl [][2]int64, maxRetries int, onSched func(failsafe.Execut
 		func() {
 			if len(tbl) > 0 {
 				b = b.WithDelayFunc(func(e failsafe.ExecutionAttempt[int]) time.Duration {
+					time.Sleep(time.Duration(c.DfSleep))
 					for _, p := range tbl {
 						if int64(e.Attempts()) == p[0] {
 							return time.Duration(p[1])
@@ -95,6 +99,9 @@ func (c DCfg) Build(tbl [][2]int64, maxRetries int, onSched func(failsafe.Execut
 		ord /= n
 		groups[k]()
 		groups = append(groups[:k], groups[k+1:]...)
+	}
+	if c.LsnSleep != 0 {
+		b = b.OnFailure(func(failsafe.ExecutionEvent[int]) { time.Sleep(time.Duration(c.LsnSleep)) })
 	}
 	return b.OnRetryScheduled(onSched).Build()
 }
@@ -193,6 +200,12 @@ func TestDrive_C13(t *testing.T) {
 		if rng.Chance(35) {
 			c.MaxDuration = mag * int64(1+rng.Intn(6))
 		}
+		if rng.Chance(30) {
+			c.LsnSleep = 1 + rng.I64n(mag/3+1) // a slow failure listener: its time counts against the max duration
+		}
+		if rng.Chance(30) {
+			c.DfSleep = 1 + rng.I64n(mag/3+1) // and so does a slow delay function
+		}
 		var tbl [][2]int64
 		if rng.Chance(30) {
 			for k := 1; k <= n; k++ {
@@ -234,8 +247,12 @@ func TestDrive_C13(t *testing.T) {
 			ts[k] = fmt.Sprintf("(%d, %s)", p[0], gZ(p[1]))
 		}
 		cg, tg, og := c.Gallina(), gList(ts), gList(obs)
-		w.Add(func(id int) string { return fmt.Sprintf("CaseSeq %d %s %s %s", id, cg, tg, og) },
-			map[string]any{"config": cg, "delay_func_by_attempt": strings.Join(ts, " "), "observed_(delay,scheduled_at,next_attempt_at)": strings.Join(obs, " ")},
+		lag := c.LsnSleep
+		if len(tbl) > 0 {
+			lag += c.DfSleep
+		}
+		w.Add(func(id int) string { return fmt.Sprintf("CaseSeq %d %s %s %d %s", id, cg, tg, lag, og) },
+			map[string]any{"config": cg, "delay_func_by_attempt": strings.Join(ts, " "), "listener_and_delay_function_take_ns": lag, "observed_(delay,scheduled_at,next_attempt_at)": strings.Join(obs, " ")},
 			len(obs) >= 2, cg+tg)
 		w.Stat("seq=" + kind)
 		if c.Jitter != 0 || c.JitterFactor != 0 {
@@ -248,5 +265,5 @@ func TestDrive_C13(t *testing.T) {
 			w.Stat("negative_delay_observed")
 		}
 	}
-	w.Close("(a) util.RandomDelayInRange / RandomDelay / RandomDelayFactor called with explicit draws (0, 1/2, the largest value below 1, random) at magnitudes 1us..10h: bit-exact comparison with the integer-arithmetic float model; (b) executions whose function fails at once, under a virtual clock: every delay kind (fixed, backoff with factors 1..10 and maxDelay, random range, delay function by attempt) with jitter / jitter factor / max duration: OnRetryScheduled delay, scheduling instant and next attempt's start instant; un-randomised configurations compared exactly, randomised ones against the envelope. Non-trivial = helper cases, and sequences with at least two delays; distinct by inputs.", nil)
+	w.Close("(a) util.RandomDelayInRange / RandomDelay / RandomDelayFactor called with explicit draws (0, 1/2, the largest value below 1, random) at magnitudes 1us..10h: bit-exact comparison with the integer-arithmetic float model; (b) executions whose function fails at once, under a virtual clock: every delay kind (fixed, backoff with factors 1..10 and maxDelay, random range, delay function by attempt) with jitter / jitter factor / max duration, failure listeners and delay functions that take (virtual) time: OnRetryScheduled delay, scheduling instant and next attempt's start instant; un-randomised configurations compared exactly, randomised ones against the envelope. Non-trivial = helper cases, and sequences with at least two delays; distinct by inputs.", nil)
 }
